@@ -77,6 +77,13 @@ def scenario_lines(sc, suffix):
     L += ["ctx %d" % s, "open %d %s rwt" % (s, tgt), "pwrite %d 0 file:%s:0:%d" % (s, sc["B"], h.hdr_total), "seek %d 0" % s, "init_read %d %d" % (s, s), "find_valid %d" % s,
           "ctx %d" % (s + 1), "open %d %s r" % (s + 1, sc["A"]), "init_read %d %d" % (s + 1, s + 1), "copy_chunks %d %d" % (s + 1, s), "find_valid %d" % s, "validate_data %d" % s,
           "free %d" % (s + 1)]
+    # error paths: every thread also fails a few calls on contexts of its own (a file that is not a zchunk file, a
+    # header whose checksum does not match, calls in the wrong mode): recording an error must not go through shared state
+    bad1 = sc["zck"] + suffix + ".notzck"; bad2 = sc["zck"] + suffix + ".badhdr"
+    L += ["ctx %d" % (s + 2), "open %d %s rwt" % (s + 2, bad1), "pwrite %d 0 hex:%s" % (s + 2, (b"this is not a zchunk file at all " * 4).hex()), "seek %d 0" % (s + 2),
+          "init_read %d %d" % (s + 2, s + 2), "read %d 10" % (s + 2), "write %d hex:00" % (s + 2), "clear_error %d" % (s + 2), "validate_checksums %d" % (s + 2), "free %d" % (s + 2), "closefd %d" % (s + 2),
+          "ctx %d" % (s + 2), "open %d %s rwt" % (s + 2, bad2), "pwrite %d 0 file:%s:0:%d" % (s + 2, sc["B"], h.hdr_total), "pwrite %d 50 hex:ffffffff" % (s + 2), "seek %d 0" % (s + 2),
+          "init_read %d %d" % (s + 2, s + 2), "ioption %d 100 0" % (s + 2), "free %d" % (s + 2), "closefd %d" % (s + 2)]
     # fetch the rest: rounds of at most two ranges (multipart responses with a boundary of this scenario's own, fed in
     # fragments), as the documented update loop does; then validate and trim
     d = s // 4
